@@ -17,47 +17,65 @@ def r1(ctx):
     init = repo.cls("config", "ArgumentParser").find_method("__init__")
     ctx.require(init is not None, "ArgumentParser.__init__ missing")
     pth = init.params[1]
-    ok = any(isinstance(s, ast.Assign) and u(s.targets[0]) == "self.name" and u(s.value) == f"os.path.basename({pth})" for s in init.node.body)
-    ctx.soft(ok, "config:ArgumentParser.__init__:basename", "the compiler must be identified by the base name of argv[0]", init.loc())
-    unk = [s for s in init.node.body if isinstance(s, ast.If) and u(s.test) == "self.name not in _compilers"]
-    ok = len(unk) == 1 and any(isinstance(x, ast.Call) and u(x.func) == "log.warning" for x in ast.walk(unk[0])) and isinstance(unk[0].body[-1], ast.Return)
-    ctx.soft(ok, "config:ArgumentParser.__init__:unknown-compiler-warned", "an unknown compiler must be reported with a warning and get the empty default behaviour", init.loc())
-    loops = [s for s in init.node.body if isinstance(s, ast.While)]
-    ctx.require(len(loops) == 1, "ArgumentParser.__init__: alias resolution loop not found")
-    lp = loops[0]
-    # visited collection: a local list/set initialised with self.name before the loop and grown inside it
-    visited = None
-    for s in init.node.body:
-        if isinstance(s, ast.Assign) and isinstance(s.targets[0], ast.Name) and isinstance(s.value, (ast.List, ast.Set)) and [u(e) for e in s.value.elts] == ["self.name"] and s.lineno < lp.lineno:
-            visited = s.targets[0].id
-    key = "config:ArgumentParser.__init__:alias-loop-detection"
-    if visited is None:
-        ctx.violation(key, "the walk does not keep the set of names visited so far (initialised with the starting name): a cycle that does not pass through the starting name (lead -> a -> b -> a) is never detected and the constructor hangs", init.loc(lp))
-    else:
-        grows = [c for c in ast.walk(lp) if isinstance(c, ast.Call) and u(c.func) in (f"{visited}.append", f"{visited}.add")]
-        tests = [s for s in lp.body if isinstance(s, ast.If) and re.fullmatch(r"(\w+) in " + visited, u(s.test))]
-        ok = len(grows) == 1 and len(tests) == 1
-        if ok:
-            nxt = re.fullmatch(r"(\w+) in " + visited, u(tests[0].test)).group(1)
-            t = tests[0]
-            ok = (
-                u(grows[0].args[0]) == nxt and isinstance(t.body[-1], ast.Return) and any(isinstance(x, ast.Call) and u(x.func) == "log.error" for x in ast.walk(t))
-                and lp.body.index(t) < max(i for i, s in enumerate(lp.body) if any(x is grows[0] for x in ast.walk(s)))
-                and any(isinstance(s, ast.Expr) and s.value is grows[0] for s in lp.body)
-            )
-            # the next alias is read from the table entry of the last visited name
-            asg = [s for s in lp.body if isinstance(s, ast.Assign) and u(s.targets[0]) == nxt]
-            ok = ok and len(asg) == 1 and u(asg[0].value) == f"_compilers[{visited}[-1]].alias_of" and u(lp.test) == f"_compilers[{visited}[-1]].alias_of"
-        ctx.check(ok, key, "every iteration must (1) read the alias of the last visited name, (2) report a loop and stop if it was visited before, (3) otherwise remember it unconditionally", init.loc(lp))
-        dang = [s for s in lp.body if isinstance(s, ast.If) and " not in _compilers" in u(s.test)]
-        ok = len(dang) == 1 and isinstance(dang[0].body[-1], ast.Return) and any(isinstance(x, ast.Call) and u(x.func) == "log.error" for x in ast.walk(dang[0]))
-        ctx.soft(ok, "config:ArgumentParser.__init__:dangling-alias-reported", "an alias of an unknown compiler must be reported and end the walk", init.loc(lp))
-        fin = [s for s in init.node.body if isinstance(s, ast.Assign) and u(s.targets[0]) == "self.compiler" and s.lineno > lp.lineno]
-        ok = len(fin) == 1 and u(fin[0].value) in (f"_compilers[{visited}[-1]]", "_compilers[alias]")
-        if ok and u(fin[0].value) == "_compilers[alias]":
-            a = [s for s in init.node.body if isinstance(s, ast.Assign) and u(s.targets[0]) == "alias" and s.lineno > lp.lineno]
-            ok = len(a) == 1 and u(a[0].value) == f"{visited}[-1]"
-        ctx.soft(ok, "config:ArgumentParser.__init__:resolves-to-chain-end", "the compiler used must be the end of the alias chain", init.loc())
+    # Stated over the decision table of the constructor (two steps of the walk unrolled):
+    #   name = basename(argv0); unknown name -> warning, empty behaviour
+    #   while the current name has an alias A:  A already visited (ANY earlier name) -> error, stop;
+    #                                          A unknown -> error, stop;  otherwise continue with A
+    #   the compiler used is the table entry of the last name
+    from ..spec import tab, vt
+
+    A0 = f"os.path.basename({pth})"
+    n_res = n_loop = n_dang = 0
+    for p in tab(init, unroll=2):
+        at = {vt(k): v for k, v in p.atoms.items()}
+        stores = [(vt(e[1]), vt(e[2])) for e in p.effects if e[0] == "store"]
+        name_st = [v for t, v in stores if t == "self.name"]
+        ctx.check(name_st == [A0], "config:ArgumentParser.__init__:basename", f"the compiler must be identified by the base name of argv[0]: self.name = {name_st}", init.loc())
+        if name_st != [A0]:
+            continue
+        comp = [v for t, v in stores if t == "self.compiler"]
+        errs = [e for e in p.effects if e[0] == "call" and e[1] in ("log.error", "log.warning")]
+        known0 = at.get(f"{A0} In _compilers")
+        if known0 is None:
+            raise AnalysisError(f"ArgumentParser.__init__: lookup of the name in the compiler table not recognised: {p.describe()[:160]}")
+        if not known0:
+            ok = len(errs) == 1 and p.result[0] == "return" and (not comp or comp[-1] == "_Compiler()")
+            ctx.check(ok, "config:ArgumentParser.__init__:unknown-compiler-warned", "an unknown compiler must be reported with a warning and get the empty default behaviour", init.loc())
+            continue
+        visited = [A0]
+        cur = A0
+        while True:
+            nxt = f"_compilers[{cur}].alias_of"
+            has = at.get(nxt)
+            if has is None:
+                break  # unrolling bound reached
+            if not has:
+                n_res += 1
+                ok = bool(comp) and comp[-1] == f"_compilers[{cur}]" and not errs
+                ctx.check(ok, "config:ArgumentParser.__init__:resolves-to-chain-end", f"the compiler used must be the table entry at the end of the alias chain (`_compilers[{cur}]`), got {comp[-1:] }", init.loc())
+                break
+            seen = next((v for k, v in at.items() if k.startswith(f"{nxt} In ") and k != f"{nxt} In _compilers" and all(x in k[len(nxt) + 4 :] for x in visited)), None)
+            if seen is None:
+                ctx.violation("config:ArgumentParser.__init__:alias-loop-detection", f"the alias `{nxt}` is not compared with ALL names visited so far {visited}: a cycle that does not pass through the starting name (lead -> a -> b -> a) is never detected and the constructor hangs", init.loc())
+                break
+            if seen:
+                n_loop += 1
+                ok = len(errs) == 1 and errs[0][1] == "log.error" and p.result[0] == "return" and (not comp or comp[-1] == "_Compiler()")
+                ctx.check(ok, "config:ArgumentParser.__init__:alias-loop-detection", "an alias loop must be reported with an error and end the walk", init.loc())
+                break
+            known = at.get(f"{nxt} In _compilers")
+            if known is None:
+                ctx.violation("config:ArgumentParser.__init__:dangling-alias-reported", f"the alias `{nxt}` is used without checking that it names a known compiler", init.loc())
+                break
+            if not known:
+                n_dang += 1
+                ok = len(errs) == 1 and errs[0][1] == "log.error" and p.result[0] == "return" and (not comp or comp[-1] == "_Compiler()")
+                ctx.check(ok, "config:ArgumentParser.__init__:dangling-alias-reported", "an alias of an unknown compiler must be reported and end the walk", init.loc())
+                break
+            visited.append(nxt)
+            cur = nxt
+    if not (n_res >= 2 and n_loop >= 2 and n_dang >= 2):
+        raise AnalysisError(f"ArgumentParser.__init__: alias walk idiom not recognised (resolved {n_res}, loops {n_loop}, dangling {n_dang})")
     ctx.floor(3)
 
 
